@@ -60,6 +60,12 @@ func testAddr(i int) sdk.AccAddress {
 	return sdk.AccAddress(b)
 }
 
+func newBidChain(s *Sched) *bidChain {
+	m := &bidChain{s: s, orders: map[string]*mOrder{}, provAddr: testAddr(1), other: testAddr(2), tenant: testAddr(3), auditor: testAddr(4)}
+	m.provider = ptypes.Provider{Owner: m.provAddr.String(), HostURI: "https://p.example.com", Attributes: atypes.Attributes{{Key: "region", Value: "us"}}}
+	return m
+}
+
 func (m *bidChain) order(id mtypes.OrderID) *mOrder { return m.orders[mquery.OrderPath(id)] }
 
 func simpleGroupSpec(name string, price int64, count uint32) dtypes.GroupSpec {
@@ -291,7 +297,9 @@ func (x *c13) respond(c *Call) (interface{}, error) {
 	panic("harness: no response for " + c.Method)
 }
 
-func (x *c13) startIncarnation() *core.Violation {
+// newIncarnation prepares a provider process (bus, observer subscription, stubs) and returns the
+// function that starts the bid engine in it (blocking on the existing-orders query).
+func (x *c13) newIncarnation() (*bidIncarnation, func() (bidengine.Service, error)) {
 	x.s.Inc++
 	inc := &bidIncarnation{n: x.s.Inc, won: map[string]bool{}}
 	inc.bus = pubsub.NewBus()
@@ -306,6 +314,13 @@ func (x *c13) startIncarnation() *core.Violation {
 	ctx, cancel := context.WithCancel(context.Background())
 	inc.cancel = cancel
 	cfg := bidengine.Config{PricingStrategy: &bidPricing{m: x.m, inc: inc.n}, Deposit: sdk.NewInt64Coin("uakt", 5000000), BidTimeout: x.cfg.bidTimeout}
+	return inc, func() (bidengine.Service, error) {
+		return bidengine.NewService(ctx, sess, &bidCluster{m: x.m, inc: inc.n}, inc.bus, cfg)
+	}
+}
+
+func (x *c13) startIncarnation() *core.Violation {
+	inc, start := x.newIncarnation()
 	// NewService performs a blocking chain query (existing orders): run it on its own goroutine and
 	// let the scheduler complete the query.
 	type res struct {
@@ -314,7 +329,7 @@ func (x *c13) startIncarnation() *core.Violation {
 	}
 	ch := make(chan res, 1)
 	go func() {
-		svc, err := bidengine.NewService(ctx, sess, &bidCluster{m: x.m, inc: inc.n}, inc.bus, cfg)
+		svc, err := start()
 		ch <- res{svc, err}
 	}()
 	x.s.Settle()
@@ -345,15 +360,19 @@ func (x *c13) drainObserved(inc *bidIncarnation) {
 		x.s.Settle()
 		select {
 		case ev := <-inc.sub.Events():
-			if lw, ok := ev.(event.LeaseWon); ok {
-				k := mquery.OrderPath(lw.LeaseID.OrderID())
-				inc.won[k] = true
-				x.r.Logf("  observed LeaseWon %s", k)
-				x.r.Count("probe:lease-won-announced")
-			}
+			x.noteObserved(inc, ev)
 		default:
 			return
 		}
+	}
+}
+
+func (x *c13) noteObserved(inc *bidIncarnation, ev interface{}) {
+	if lw, ok := ev.(event.LeaseWon); ok {
+		k := mquery.OrderPath(lw.LeaseID.OrderID())
+		inc.won[k] = true
+		x.r.Logf("  observed LeaseWon %s", k)
+		x.r.Count("probe:lease-won-announced")
 	}
 }
 
@@ -361,8 +380,7 @@ func runC13(r *core.Run) *core.Violation {
 	x := &c13{r: r, s: NewSched(r)}
 	x.s.Inc = 0
 	x.s.Respond = x.respond
-	m := &bidChain{s: x.s, orders: map[string]*mOrder{}, provAddr: testAddr(1), other: testAddr(2), tenant: testAddr(3), auditor: testAddr(4)}
-	m.provider = ptypes.Provider{Owner: m.provAddr.String(), HostURI: "https://p.example.com", Attributes: atypes.Attributes{{Key: "region", Value: "us"}}}
+	m := newBidChain(x.s)
 	x.m = m
 	// per-run knobs
 	timeouts := []time.Duration{5 * time.Minute, 0, 30 * time.Second}
@@ -446,7 +464,7 @@ func (x *c13) step() (bool, *core.Violation) {
 			r.Abstract("ok|" + c.Method)
 			return false, nil
 		}})
-		if x.cfg.faults > 0 && c.Method != "Cluster.Unreserve" {
+		if x.cfg.faults > 0 {
 			st = append(st, stim{"fail " + c.Key, 3, func() (bool, *core.Violation) {
 				x.cfg.faults--
 				x.s.Complete(c, ErrInjected)
@@ -698,7 +716,7 @@ func (x *c13) finish() *core.Violation {
 		idle = 0
 		// in the final phase calls complete successfully unless a fault is still in the budget
 		c := p[r.Choose(len(p), "final.which")]
-		if x.cfg.faults > 0 && c.Method != "Cluster.Unreserve" && r.Bool(25, "final.fail") {
+		if x.cfg.faults > 0 && r.Bool(25, "final.fail") {
 			x.cfg.faults--
 			x.s.Complete(c, ErrInjected)
 			r.Count("fault:fail-" + c.Method)
@@ -725,6 +743,13 @@ func (x *c13) finish() *core.Violation {
 	if v := x.checkSafety(); v != nil {
 		return v
 	}
+	return x.checkObligations()
+}
+
+// checkObligations: for every order whose handling ended without the provider having won, every
+// granted reservation was released and every placed bid was followed by a close-bid (call log only).
+func (x *c13) checkObligations() *core.Violation {
+	r := x.r
 	// obligations
 	for _, in := range x.all {
 		if in.dead {
